@@ -90,6 +90,7 @@ func msgCfgs(r *Run, full bool) []Cfg {
 		for f := uint(0); f < 4; f++ {
 			cfgs = append(cfgs, Cfg{Flags: f, HdrCap: -1, ValCap: -1})
 		}
+		cfgs = append(cfgs, Cfg{Flags: 0, HdrCap: -1, ValCap: -1, Offs: 40, Junk: "crlf"})
 		for _, h := range hc {
 			for _, v := range vc {
 				if h == -1 && v == -1 {
@@ -107,6 +108,8 @@ func msgCfgs(r *Run, full bool) []Cfg {
 				cfgs = append(cfgs, Cfg{Flags: f, HdrCap: h, ValCap: v, Offs: 3, Junk: "crlf"})
 			}
 		}
+		// a message that follows an earlier one in the same buffer (start offset beyond the first-line look-ahead)
+		cfgs = append(cfgs, Cfg{Flags: f, HdrCap: -1, ValCap: -1, Offs: 40, Junk: "crlf"}, Cfg{Flags: f, HdrCap: 2, ValCap: 1, Offs: 17, Junk: "a"})
 	}
 	return cfgs
 }
@@ -127,7 +130,7 @@ func msgSpaces(r *Run) []space {
 		// quick: offsets 0 only for the long messages, both offsets on the shallow trie
 		var f0 []Cfg
 		for _, c := range full {
-			if c.Offs == 0 {
+			if c.Offs == 0 || c.Offs >= 17 {
 				f0 = append(f0, c)
 			}
 		}
